@@ -15,6 +15,85 @@ import (
 
 func init() { suites["OPL"] = suiteOPL }
 
+// bigDoc: large documents of one repeated construct; parse time must grow linearly with the input (C12)
+func bigDoc(shape, k int) string {
+	var sb strings.Builder
+	switch shape {
+	case 0: // one class, k relations to an undeclared namespace: k type errors
+		sb.WriteString("class A implements Namespace {\n  related: {\n")
+		for i := 0; i < k; i++ {
+			fmt.Fprintf(&sb, "    r%06d: Missing[]\n", i)
+		}
+		sb.WriteString("  }\n}\n")
+	case 1: // k classes, each refers to the previous one
+		sb.WriteString("class C0 implements Namespace {}\n")
+		for i := 1; i < k; i++ {
+			fmt.Fprintf(&sb, "class C%d implements Namespace { related: { p: C%d[] } }\n", i, i-1)
+		}
+	case 2: // one permission, a k-term || chain
+		sb.WriteString("class U implements Namespace {}\nclass A implements Namespace {\n  related: { r: U[] }\n  permits = { p: (ctx) => ")
+		for i := 0; i < k; i++ {
+			if i > 0 {
+				sb.WriteString(" || ")
+			}
+			sb.WriteString("this.related.r.includes(ctx.subject)")
+		}
+		sb.WriteString(" }\n}\n")
+	case 3: // k permissions that refer to an undeclared relation
+		sb.WriteString("class A implements Namespace {\n  related: { r: A[] }\n  permits = {\n")
+		for i := 0; i < k; i++ {
+			fmt.Fprintf(&sb, "    p%06d: (ctx) => this.related.nope.includes(ctx.subject),\n", i)
+		}
+		sb.WriteString("  }\n}\n")
+	case 4: // k relations with union types
+		sb.WriteString("class U implements Namespace {}\nclass A implements Namespace {\n  related: {\n")
+		for i := 0; i < k; i++ {
+			fmt.Fprintf(&sb, "    r%06d: (U | SubjectSet<A, \"r000000\">)[]\n", i)
+		}
+		sb.WriteString("  }\n}\n")
+	case 5: // k traversals
+		sb.WriteString("class A implements Namespace {\n  related: { r: A[] }\n  permits = {\n    q: (ctx) => this.related.r.includes(ctx.subject),\n")
+		for i := 0; i < k; i++ {
+			fmt.Fprintf(&sb, "    p%06d: (ctx) => this.related.r.traverse((x) => x.permits.q(ctx)),\n", i)
+		}
+		sb.WriteString("  }\n}\n")
+	case 6: // a long && chain
+		sb.WriteString("class U implements Namespace {}\nclass A implements Namespace {\n  related: { r: U[] }\n  permits = { p: (ctx) => ")
+		for i := 0; i < k; i++ {
+			if i > 0 {
+				sb.WriteString(" && ")
+			}
+			sb.WriteString("this.related.r.includes(ctx.subject)")
+		}
+		sb.WriteString(" }\n}\n")
+	case 7: // k comment lines and blank lines before one class
+		for i := 0; i < k; i++ {
+			fmt.Fprintf(&sb, "// comment line %d\n\n", i)
+		}
+		sb.WriteString("class A implements Namespace {}\n")
+	}
+	return sb.String()
+}
+
+func bigTime(src string) time.Duration {
+	best := time.Duration(0)
+	for i := 0; i < 2; i++ { // the better of two runs
+		start := time.Now()
+		_, errs := schema.Parse(src)
+		for _, e := range errs[:min(len(errs), 50)] {
+			_ = e.ToAPI()
+		}
+		dt := time.Since(start)
+		if i == 0 || dt < best {
+			best = dt
+		}
+		if dt > 5*time.Second {
+			break
+		}
+	}
+	return best
+}
+
 // ---- spelling variants of a configuration (C10) ----
 func quoteName(r *rng, s string) string {
 	switch r.intn(6) {
@@ -267,6 +346,15 @@ func suiteOPL(t *testing.T, cfg cfgT) {
 	out := newSink(cfg, "cases.txt")
 	defer out.close(cfg)
 	r := newRng(cfg.seed)
+	// parse time must be linear in the input: eight kinds of large document, at k and 4k repetitions
+	for shape := 0; shape < 8 && cfg.extra["big"] == "1"; shape++ {
+		k := 6000
+		t1 := bigTime(bigDoc(shape, k))
+		d2 := bigDoc(shape, 4*k)
+		t2 := bigTime(d2)
+		out.emit(fmt.Sprintf("oplbig %d %d", shape, k), fmt.Sprintf("%d %d %d", t1.Microseconds(), t2.Microseconds(), len(d2)))
+		out.stat(fmt.Sprintf("big.shape%d", shape))
+	}
 	for _, l := range readCorpus(cfg) {
 		op, arg, _ := strings.Cut(l, " ")
 		if op == "parse" {
